@@ -47,7 +47,7 @@ func (r *refcat) step(o ochg, lenient bool) (strict, soft []failure) {
 		}
 		r.tabs[o.t] = true
 		for _, f := range o.fks {
-			if !r.tabs[f.ref] {
+			if !r.tabs[f.ref] && !sqliteMode { // SQLite: a key to a missing table is legal
 				failFK(f, "CREATE TABLE %d declares FK %d to table %d which does not exist yet", o.t, f.sym, f.ref)
 			}
 			r.live[[2]int{o.t, f.sym}] = f.ref
@@ -57,7 +57,7 @@ func (r *refcat) step(o ochg, lenient bool) (strict, soft []failure) {
 			fail("double-drop", "table %d dropped while it does not exist", o.t)
 		}
 		for k, p := range r.live {
-			if p == o.t && k[0] != o.t {
+			if p == o.t && k[0] != o.t && !(sqliteMode && sqliteFKOff) { // SQLite with enforcement off: legal
 				fail("drop-referenced", "table %d dropped while FK %d of table %d still points at it", o.t, k[1], k[0])
 			}
 		}
@@ -74,7 +74,7 @@ func (r *refcat) step(o ochg, lenient bool) (strict, soft []failure) {
 		for _, tc := range o.tcs {
 			switch tc.kind {
 			case '+':
-				if !r.tabs[tc.f.ref] {
+				if !r.tabs[tc.f.ref] && !sqliteMode {
 					failFK(tc.f, "ALTER TABLE %d adds FK %d to table %d which does not exist", o.t, tc.f.sym, tc.f.ref)
 				}
 				r.live[[2]int{o.t, tc.f.sym}] = tc.f.ref
@@ -88,7 +88,7 @@ func (r *refcat) step(o ochg, lenient bool) (strict, soft []failure) {
 					fail("dropfk-not-live", "ALTER TABLE %d re-points FK %d which is not live", o.t, tc.f.sym)
 				}
 				delete(r.live, [2]int{o.t, tc.f.sym})
-				if !r.tabs[tc.g.ref] {
+				if !r.tabs[tc.g.ref] && !sqliteMode {
 					failFK(tc.g, "ALTER TABLE %d re-points FK %d to table %d which does not exist", o.t, tc.g.sym, tc.g.ref)
 				}
 				r.live[[2]int{o.t, tc.g.sym}] = tc.g.ref
